@@ -3,12 +3,11 @@ import Zstd.Proofs.FrameDecoderSched
 Schedule independence (C06): a decoder that has been drained in any way and its "never drained"
 twin decode every block identically; lifted to `decode_blocks` and to driver programs.
 -/
+set_option linter.unusedSectionVars false
 namespace Zstd.Model
 open Zstd
 
-/-- the "never drained" twin of a buffer: the bytes `d` the caller has already taken are still in
-front, and the hasher field is `x` (decode operations never read it) -/
-def DBuf.twin (d x : Array Nat) (b : DBuf) : DBuf := { b with content := d ++ b.content, hashed := x }
+variable {σ : Type} [BlockDec σ] [BlockContract σ]
 
 theorem DBuf.twin_push (d x : Array Nat) (b : DBuf) (y : Array Nat) :
     (b.twin d x).push y = (b.push y).twin d x := by
@@ -71,21 +70,6 @@ theorem executeSequences_twin (W : Nat) (d x : Array Nat) (seqs : List Spec.Seq)
             · simp only [hml, if_false]
               exact ih _ _ _ _ hW1 hoff'.2
 
-/-- the offsets the sequences of a compressed block body resolve to ([] when the body does not get
-as far as sequence execution) -/
-def blockOffsets (content : List Nat) (e : Spec.Entropy) : List Nat :=
-  match decodeLiteralsM content e.huf with
-  | .error _ => []
-  | .ok (_, used, huf, _) =>
-    match Spec.parseSeqCount (content.drop used) with
-    | none => []
-    | some (n, _) =>
-      if n = 0 then []
-      else
-        match decodeSequencesM (content.drop used) { e with huf := huf } with
-        | .error _ => []
-        | .ok (seqs, e') => resolvedOffsets seqs (e'.hist.r1, e'.hist.r2, e'.hist.r3)
-
 theorem decompressBlock_twin (W : Nat) (d x : Array Nat) (content : List Nat) (e : Spec.Entropy) (b : DBuf)
     (hW : W ≤ b.content.size) (hoff : ∀ o ∈ blockOffsets content e, o ≤ W) :
     decompressBlock content e (b.twin d x) =
@@ -116,10 +100,10 @@ theorem decompressBlock_twin (W : Nat) (d x : Array Nat) (content : List Nat) (e
           simp only [hseq] at hoff ⊢
           rw [executeSequences_twin W d x seqs lits _ 0 b hW hoff]
 
-def FState.twin (d x : Array Nat) (st : FState) : FState := { st with buf := st.buf.twin d x }
+def FState.twin (d x : Array Nat) (st : FState σ) : FState σ := { st with buf := st.buf.twin d x }
 
-theorem blockBody_twin (W : Nat) (d x : Array Nat) (st : FState) (bh : BHeader) (body : List Nat)
-    (hW : W ≤ st.buf.content.size) (hoff : bh.btype ≠ 1 → bh.btype ≠ 0 → ∀ o ∈ blockOffsets body st.entropy, o ≤ W) :
+theorem blockBody_twin (W : Nat) (d x : Array Nat) (st : FState σ) (bh : BHeader) (body : List Nat)
+    (hW : W ≤ st.buf.content.size) (hoff : bh.btype ≠ 1 → bh.btype ≠ 0 → ∀ o ∈ BlockDec.offsets body st.entropy, o ≤ W) :
     blockBody (st.twin d x) bh body = ((blockBody st bh body).1.twin d x, (blockBody st bh body).2) := by
   simp only [blockBody]
   split
@@ -127,10 +111,10 @@ theorem blockBody_twin (W : Nat) (d x : Array Nat) (st : FState) (bh : BHeader) 
   · split
     · simp [FState.twin, DBuf.twin, Array.append_assoc]
     · rename_i h1 h0
-      have := decompressBlock_twin W d x body st.entropy st.buf hW (hoff h1 h0)
+      have := BlockContract.twin W d x body st.entropy st.buf hW (hoff h1 h0)
       simp only [FState.twin] at this ⊢
       rw [this]
-      cases hd : decompressBlock body st.entropy st.buf with
+      cases hd : BlockDec.run body st.entropy st.buf with
       | mk p o =>
         obtain ⟨buf, e⟩ := p
         cases o with
@@ -139,18 +123,18 @@ theorem blockBody_twin (W : Nat) (d x : Array Nat) (st : FState) (bh : BHeader) 
         | fault f => rfl
 
 /-- offsets of the block at the front of `s` ([] unless it is a complete compressed block) -/
-def nextBlockOffsets (st : FState) (s : Src) : List Nat :=
+def nextBlockOffsets (st : FState σ) (s : Src) : List Nat :=
   if s.length < 3 then []
   else match parseBlockHeader (s.getD 0 0) (s.getD 1 0) (s.getD 2 0) with
     | .error _ => []
     | .ok bh =>
       if s.length < 3 + bh.contentSize ∨ bh.btype = 1 ∨ bh.btype = 0 then []
-      else blockOffsets ((s.drop 3).take bh.contentSize) st.entropy
+      else BlockDec.offsets ((s.drop 3).take bh.contentSize) st.entropy
 
 /-- `block_effect_local`: one block on the drained buffer and on its never-drained twin — same
 outcome, same bytes appended, same entropy state, same counters — provided the block's offsets
 stay within `W` and at least `W` bytes are retained -/
-theorem decodeOneBlock_twin (W : Nat) (d x : Array Nat) (st : FState) (s : Src)
+theorem decodeOneBlock_twin (W : Nat) (d x : Array Nat) (st : FState σ) (s : Src)
     (hW : W ≤ st.buf.content.size) (hoff : ∀ o ∈ nextBlockOffsets st s, o ≤ W) :
     decodeOneBlock (st.twin d x) s = ((decodeOneBlock st s).1.twin d x, (decodeOneBlock st s).2) := by
   rw [decodeOneBlock_eq, decodeOneBlock_eq]
@@ -174,7 +158,7 @@ theorem decodeOneBlock_twin (W : Nat) (d x : Array Nat) (st : FState) (s : Src)
 
 
 /-- every block the loop decodes on this source keeps its offsets within `W` -/
-def LoopOffsetsOk (W : Nat) (strat : Strategy) (a c : Nat) : Nat → FState → Src → Prop
+def LoopOffsetsOk (W : Nat) (strat : Strategy) (a c : Nat) : Nat → FState σ → Src → Prop
   | 0, _, _ => True
   | fuel + 1, st, s =>
     (∀ o ∈ nextBlockOffsets st s, o ≤ W) ∧
@@ -183,7 +167,7 @@ def LoopOffsetsOk (W : Nat) (strat : Strategy) (a c : Nat) : Nat → FState → 
       if bh.last then True else if stratStop strat a c st1 then True else LoopOffsetsOk W strat a c fuel st1 s1
     | _ => True
 
-theorem stratStop_twin (strat : Strategy) (a c : Nat) (d x : Array Nat) (st1 : FState) :
+theorem stratStop_twin (strat : Strategy) (a c : Nat) (d x : Array Nat) (st1 : FState σ) :
     stratStop strat (a + d.size) c (st1.twin d x) = stratStop strat a c st1 := by
   cases strat with
   | all => rfl
@@ -194,7 +178,7 @@ theorem stratStop_twin (strat : Strategy) (a c : Nat) (d x : Array Nat) (st1 : F
     apply propext
     omega
 
-theorem decodeBlocksLoop_twin (W : Nat) (d x : Array Nat) (strat : Strategy) (a c fuel : Nat) (st : FState) (s : Src)
+theorem decodeBlocksLoop_twin (W : Nat) (d x : Array Nat) (strat : Strategy) (a c fuel : Nat) (st : FState σ) (s : Src)
     (hW : W ≤ st.buf.content.size) (hok : LoopOffsetsOk W strat a c fuel st s) :
     decodeBlocksLoop strat (a + d.size) c fuel (st.twin d x) s =
       ((decodeBlocksLoop strat a c fuel st s).1.twin d x, (decodeBlocksLoop strat a c fuel st s).2) := by
@@ -234,25 +218,25 @@ theorem decodeBlocksLoop_twin (W : Nat) (d x : Array Nat) (strat : Strategy) (a 
 
 /-- `dF` is the never-drained twin of `dD`: same decoder, but everything `dD` has handed out
 (= `hashed`, by C08) is still in front of the buffer -/
-def IsTwin (dD dF : Decoder) : Prop :=
+def IsTwin (dD dF : Decoder σ) : Prop :=
   dF.dicts = dD.dicts ∧ dF.maxWindow = dD.maxWindow ∧
   ((dD.state = none ∧ dF.state = none) ∨
    ∃ st, dD.state = some st ∧ dF.state = some (st.twin st.buf.hashed #[]))
 
 /-- the retention invariant: nothing was drained yet, or at least a window is still buffered -/
-def Retains (d : Decoder) : Prop :=
+def Retains (d : Decoder σ) : Prop :=
   match d.state with
   | none => True
   | some st => st.buf.hashed = #[] ∨ st.buf.window ≤ st.buf.content.size
 
-theorem FState.twin_take (st : FState) (k : Nat) :
-    ({ st with buf := (st.buf.take k).2 } : FState).twin (st.buf.take k).2.hashed #[] = st.twin st.buf.hashed #[] := by
+theorem FState.twin_take (st : FState σ) (k : Nat) :
+    ({ st with buf := (st.buf.take k).2 } : FState σ).twin (st.buf.take k).2.hashed #[] = st.twin st.buf.hashed #[] := by
   simp only [FState.twin, DBuf.twin]
   congr 2
   rw [DBuf.take_hashed, Array.append_assoc, DBuf.take_partition]
 
 /-- drains do not change the twin -/
-theorem IsTwin.drain {dD dF : Decoder} (h : IsTwin dD dF) (op : DrainOp) : IsTwin (applyDrain dD op).1 dF := by
+theorem IsTwin.drain {dD dF : Decoder σ} (h : IsTwin dD dF) (op : DrainOp) : IsTwin (applyDrain dD op).1 dF := by
   rcases applyDrain_take dD op with ⟨hn, he⟩ | ⟨st, k, hs, hk, he⟩
   · rw [he]; exact h
   · rw [he]
@@ -262,7 +246,7 @@ theorem IsTwin.drain {dD dF : Decoder} (h : IsTwin dD dF) (op : DrainOp) : IsTwi
     · rw [hs] at hs'; cases hs'
       rw [hf, FState.twin_take]
 
-theorem Retains.drain {d : Decoder} (h : Retains d) (op : DrainOp) (hnd : d.blocksDone = false) :
+theorem Retains.drain {d : Decoder σ} (h : Retains d) (op : DrainOp) (hnd : d.blocksDone = false) :
     Retains (applyDrain d op).1 := by
   have hr := applyDrain_retains d op hnd
   rcases applyDrain_take d op with ⟨hn, he⟩ | ⟨st, k, hs, hk, he⟩
@@ -280,7 +264,7 @@ theorem Retains.drain {d : Decoder} (h : Retains d) (op : DrainOp) (hnd : d.bloc
         rw [DBuf.take_zero]; exact h
     · right; omega
 
-theorem FState.twin_self (st : FState) (h : st.buf.hashed = #[]) : st.twin st.buf.hashed #[] = st := by
+theorem FState.twin_self (st : FState σ) (h : st.buf.hashed = #[]) : st.twin st.buf.hashed #[] = st := by
   obtain ⟨hd, fin, bc, br, cs, ud, en, ⟨c, di, w, t, hsh⟩⟩ := st
   simp only at h
   subst h
@@ -289,7 +273,7 @@ theorem FState.twin_self (st : FState) (h : st.buf.hashed = #[]) : st.twin st.bu
 /-- `decode_blocks` on the decoder and on its never-drained twin: same outcome (value, error and
 remaining source), and the results are twins again — for every strategy, provided the retention
 invariant holds and the offsets of the blocks decoded stay within the window -/
-theorem IsTwin.decodeBlocks {dD dF : Decoder} (h : IsTwin dD dF) (hr : Retains dD) (s : Src) (strat : Strategy)
+theorem IsTwin.decodeBlocks {dD dF : Decoder σ} (h : IsTwin dD dF) (hr : Retains dD) (s : Src) (strat : Strategy)
     (hoff : ∀ st, dD.state = some st →
       LoopOffsetsOk st.buf.window strat st.buf.content.size st.blockCounter (s.length + 1) st s) :
     (dF.decodeBlocks s strat).2 = (dD.decodeBlocks s strat).2 ∧
@@ -303,7 +287,7 @@ theorem IsTwin.decodeBlocks {dD dF : Decoder} (h : IsTwin dD dF) (hr : Retains d
     simp only [Retains, hs] at hr
     have hstep := decodeBlocksLoop_step strat st.buf.content.size st.blockCounter (s.length + 1) st s
     obtain ⟨y, hy⟩ := hstep.appends
-    have hret : Retains ({ dD with state := some (decodeBlocksLoop strat st.buf.content.size st.blockCounter (s.length + 1) st s).1 } : Decoder) := by
+    have hret : Retains ({ dD with state := some (decodeBlocksLoop strat st.buf.content.size st.blockCounter (s.length + 1) st s).1 } : Decoder σ) := by
       simp only [Retains]
       rcases hr with hr | hr
       · left; rw [hy.hashed]; exact hr
@@ -332,7 +316,7 @@ inductive SOp where
 /-- run a program: `decode_blocks` calls continue where the previous one stopped; the run stops at
 the first decode error.  Result: decoder, remaining source, bytes delivered (in order), and the
 error that stopped the run, if any -/
-def runSched (d : Decoder) (s : Src) : List SOp → Decoder × Src × Array Nat × Option DErr
+def runSched (d : Decoder σ) (s : Src) : List SOp → Decoder σ × Src × Array Nat × Option DErr
   | [] => (d, s, #[], none)
   | .drain o :: ops =>
     let r := runSched (applyDrain d o).1 s ops
@@ -351,7 +335,7 @@ def blocksOnly : List SOp → List SOp
 
 /-- the program is a documented use: `decode_blocks` is only called while the last block is not in,
 and every block it decodes keeps its offsets within the frame's window -/
-def SchedOk (d : Decoder) (s : Src) : List SOp → Prop
+def SchedOk (d : Decoder σ) (s : Src) : List SOp → Prop
   | [] => True
   | .drain o :: ops => SchedOk (applyDrain d o).1 s ops
   | .blocks strat :: ops =>
@@ -362,7 +346,7 @@ def SchedOk (d : Decoder) (s : Src) : List SOp → Prop
     | (d1, .ok (s1, _)) => SchedOk d1 s1 ops
     | _ => True
 
-theorem applyDrain_blocksDone (d : Decoder) (op : DrainOp) : (applyDrain d op).1.blocksDone = d.blocksDone := by
+theorem applyDrain_blocksDone (d : Decoder σ) (op : DrainOp) : (applyDrain d op).1.blocksDone = d.blocksDone := by
   rcases applyDrain_take d op with ⟨hn, he⟩ | ⟨st, k, hs, hk, he⟩
   · rw [he]
   · rw [he]; simp [Decoder.blocksDone, hs]
@@ -371,7 +355,7 @@ theorem applyDrain_blocksDone (d : Decoder) (op : DrainOp) : (applyDrain d op).1
 the run of the same `decode_blocks` calls on the never-drained twin end in the same error (or
 none), with the same source left, and as twins: what was delivered, followed by what is still
 buffered, is exactly what the drain-free run has buffered -/
-theorem runSched_twin (dD dF : Decoder) (s : Src) (ops : List SOp)
+theorem runSched_twin (dD dF : Decoder σ) (s : Src) (ops : List SOp)
     (htw : IsTwin dD dF) (hret : Retains dD ∨ dD.blocksDone = true) (hok : SchedOk dD s ops) :
     IsTwin (runSched dD s ops).1 (runSched dF s (blocksOnly ops)).1 ∧
     (runSched dD s ops).2.1 = (runSched dF s (blocksOnly ops)).2.1 ∧
@@ -414,8 +398,8 @@ theorem runSched_twin (dD dF : Decoder) (s : Src) (ops : List SOp)
 
 /-- corollary: the bytes any documented program has delivered, followed by what it still buffers,
 are what the drain-free program has buffered (when the decoder started the frame freshly `reset`) -/
-theorem delivered_prefix_of_undrained (d0 : Decoder) (s : Src) (ops : List SOp)
-    (hfresh : d0.hashed = #[]) (hok : SchedOk d0 s ops) (st stF : FState)
+theorem delivered_prefix_of_undrained (d0 : Decoder σ) (s : Src) (ops : List SOp)
+    (hfresh : d0.hashed = #[]) (hok : SchedOk d0 s ops) (st stF : FState σ)
     (hD : (runSched d0 s ops).1.state = some st) (hF : (runSched d0 s (blocksOnly ops)).1.state = some stF) :
     st.buf.hashed ++ st.buf.content = stF.buf.content := by
   have htw : IsTwin d0 d0 := by
@@ -444,7 +428,7 @@ theorem delivered_prefix_of_undrained (d0 : Decoder) (s : Src) (ops : List SOp)
 
 /-- `StreamingDecoder::read(buf)` (when it does not return 0 immediately) as a program of
 `decode_blocks(UptoBytes(k))` calls followed by one `read(buf)` -/
-def sreadProg : Nat → Decoder → Src → Nat → List SOp
+def sreadProg : Nat → Decoder σ → Src → Nat → List SOp
   | 0, _, _, n => [.drain (.read n)]
   | fuel + 1, d, s, n =>
     if d.canCollect < n ∧ !d.isFinished then
@@ -454,7 +438,7 @@ def sreadProg : Nat → Decoder → Src → Nat → List SOp
          | _ => [])
     else [.drain (.read n)]
 
-theorem sreadProg_run (fuel : Nat) (d : Decoder) (s : Src) (n : Nat) :
+theorem sreadProg_run (fuel : Nat) (d : Decoder σ) (s : Src) (n : Nat) :
     ∃ sE, runSched d s (sreadProg fuel d s n) =
       match streamingFill fuel d s n with
       | (d1, .ok s1) => ((d1.read n).1, s1, (d1.read n).2, none)
@@ -476,7 +460,7 @@ theorem sreadProg_run (fuel : Nat) (d : Decoder) (s : Src) (n : Nat) :
 
 /-- `StreamingDecoder::read` is a driver program of `decode_blocks` and `read` calls: schedule
 independence (`runSched_twin`) therefore covers it -/
-theorem streamingRead_is_program (d : Decoder) (s : Src) (n : Nat) :
+theorem streamingRead_is_program (d : Decoder σ) (s : Src) (n : Nat) :
     ∃ prog sE, runSched d s prog =
       match streamingRead d s n with
       | (d1, .ok (s1, out)) => (d1, s1, out, none)
@@ -498,7 +482,7 @@ theorem streamingRead_is_program (d : Decoder) (s : Src) (n : Nat) :
 
 
 /-- every block the `decode_from_to` loop decodes on this chunk keeps its offsets within `W` -/
-def FromToOffsetsOk (W : Nat) : Nat → FState → Src → Prop
+def FromToOffsetsOk (W : Nat) : Nat → FState σ → Src → Prop
   | 0, _, _ => True
   | fuel + 1, st, s =>
     (∀ o ∈ nextBlockOffsets st s, o ≤ W) ∧
@@ -506,7 +490,7 @@ def FromToOffsetsOk (W : Nat) : Nat → FState → Src → Prop
     | (st1, .ok (bh, s1)) => if bh.last then True else FromToOffsetsOk W fuel st1 s1
     | _ => True
 
-theorem decodeFromToLoop_twin (W : Nat) (d x : Array Nat) (fuel : Nat) (st : FState) (s : Src)
+theorem decodeFromToLoop_twin (W : Nat) (d x : Array Nat) (fuel : Nat) (st : FState σ) (s : Src)
     (hW : W ≤ st.buf.content.size) (hok : FromToOffsetsOk W fuel st s) :
     decodeFromToLoop fuel (st.twin d x) s =
       ((decodeFromToLoop fuel st s).1.twin d x, (decodeFromToLoop fuel st s).2) := by
@@ -551,7 +535,7 @@ theorem decodeFromToLoop_twin (W : Nat) (d x : Array Nat) (fuel : Nat) (st : FSt
                 exact ih st1 s1 (by rw [hy.size]; omega) hok2
 
 
-theorem Decoder.read_zero (d : Decoder) : (d.read 0).1 = d := by
+theorem Decoder.read_zero (d : Decoder σ) : (d.read 0).1 = d := by
   cases hst : d.state with
   | none => simp [Decoder.read, hst]
   | some st =>
@@ -563,8 +547,8 @@ theorem Decoder.read_zero (d : Decoder) : (d.read 0).1 = d := by
 
 /-- `decode_from_to(src, target)` on a drained decoder and `decode_from_to(src, &mut [])` on its
 never-drained twin: same reported count or error, and the results are twins again -/
-theorem IsTwin.decodeFromTo {dD dF : Decoder} (h : IsTwin dD dF) (hr : Retains dD) (s : Src) (n : Nat)
-    (st : FState) (hst : dD.state = some st)
+theorem IsTwin.decodeFromTo {dD dF : Decoder σ} (h : IsTwin dD dF) (hr : Retains dD) (s : Src) (n : Nat)
+    (st : FState σ) (hst : dD.state = some st)
     (hoff : FromToOffsetsOk st.buf.window (s.length + 1) st s) :
     IsTwin (dD.decodeFromTo s n).1 (dF.decodeFromTo s 0).1 ∧
     (dD.decodeFromTo s n).2.mapOk (·.1) = (dF.decodeFromTo s 0).2.mapOk (·.1) := by
@@ -623,13 +607,13 @@ theorem IsTwin.decodeFromTo {dD dF : Decoder} (h : IsTwin dD dF) (hr : Retains d
           | fault f => exact ⟨htw2, rfl⟩
 
 
-theorem Retains.drain_or_done {d : Decoder} (h : Retains d) (op : DrainOp) :
+theorem Retains.drain_or_done {d : Decoder σ} (h : Retains d) (op : DrainOp) :
     Retains (applyDrain d op).1 ∨ (applyDrain d op).1.blocksDone = true := by
   by_cases hb : d.blocksDone = false
   · exact Or.inl (h.drain op hb)
   · right; rw [applyDrain_blocksDone]; simpa using hb
 
-theorem Retains.decodeFromTo {d : Decoder} (h : Retains d) (s : Src) (n : Nat) (st : FState) (hst : d.state = some st) :
+theorem Retains.decodeFromTo {d : Decoder σ} (h : Retains d) (s : Src) (n : Nat) (st : FState σ) (hst : d.state = some st) :
     Retains (d.decodeFromTo s n).1 ∨ (d.decodeFromTo s n).1.blocksDone = true := by
   rw [Decoder.decodeFromTo_some d st s n hst]
   split
@@ -645,7 +629,7 @@ theorem Retains.decodeFromTo {d : Decoder} (h : Retains d) (s : Src) (n : Nat) (
       | mk st2 o =>
         rw [hl] at hy
         simp only at hy
-        have hr2 : Retains ({ d with state := some st2 } : Decoder) := by
+        have hr2 : Retains ({ d with state := some st2 } : Decoder σ) := by
           simp only [Retains, hst] at h ⊢
           rcases h with h | h
           · left; rw [hy.hashed]; exact h
